@@ -169,7 +169,7 @@ func runC11(ctx *core.Ctx) {
 	ctx.Assume("host-ness is judged only where RFC 3986 and WHATWG agree", "a without href and target values differing from _blank in case are not judged", "rel tokens are split on ASCII whitespace and compared ASCII-case-insensitively")
 	ctx.Exhaustive(false)
 	seqs := c11Seqs(ctx.N(4, 5))
-	K := ctx.N(2, 8)
+	K := ctx.N(6, 16)
 	swNames := []string{spec.SwNoFollow, spec.SwNoFollowFQ, spec.SwNoReferrer, spec.SwNoReferrerFQ, spec.SwTargetBlank}
 	ctx.Run("options", 32*3*2, func(cs *core.Case) {
 		mask := cs.Index % 32
